@@ -42,7 +42,7 @@ Definition reader_runnable (g : gates) (s : st) (r : nat * rpc) : bool :=
   match snd r with
   | RReading => mem (fst r) (lost s)
   | RAtRead _ | RAtStored _ | RAtPrecancel _ | RAtPresock => negb (rpc_parked g (snd r))
-  | RWantMu _ n => negb (existsb holds_mu (firstn n (calls s)))
+  | RWantMu _ n | RWantMu1 _ n => negb (existsb holds_mu (firstn n (calls s)))
   | RAfterFail | RReRead => true
   | _ => false
   end.
@@ -102,7 +102,7 @@ Definition next_action (g : gates) (h : hints) (s : st) : option ev :=
                | _, _ => None
                end in
   let a_cancel :=
-    match find_idx (fun r => match snd r with RWantMu _ _ => true | _ => false end) (readers s) 0 with
+    match find_idx (fun r => match snd r with RWantMu _ _ | RWantMu1 _ _ => true | _ => false end) (readers s) 0 with
     | Some i =>
         option_map (fun k => EvCancel i k)
           (find (fun k => match nth_error (calls s) k with
@@ -166,7 +166,7 @@ Definition hints_of (l : list val) : hints :=
 (* D4 is a map range in unspecified order: calls it reached before blocking on a locked one
    are already cancelled; the harness reports which (hint cancel-cK) *)
 Definition apply_cancels (h : hints) (s : st) : st :=
-  match find_idx (fun r => match snd r with RWantMu _ _ => true | _ => false end) (readers s) 0 with
+  match find_idx (fun r => match snd r with RWantMu _ _ | RWantMu1 _ _ => true | _ => false end) (readers s) 0 with
   | Some i => fold_left (fun acc k => step acc (EvCancel i k)) (h_cancel h) s
   | None => s
   end.
@@ -239,7 +239,7 @@ Definition reader_pos (s : st) (p : rpc) : val :=
   | RReRead => vsym "run"
   | RAtStored _ => vsym "disc.stored"
   | RAtPrecancel _ => vsym "disc.precancel"
-  | RWantMu _ _ => vsym "lock"
+  | RWantMu _ _ | RWantMu1 _ _ => vsym "lock"
   | RAtPresock => vsym "disc.presock"
   | RWaitLock => vsym "lock"
   | RInRound => round_pos s
